@@ -3,7 +3,7 @@ import itertools, json
 from fractions import Fraction
 import numpy as np
 from harness import gslib
-from harness.common import pmap, lean_query, guard, fr, to_np, optn
+from harness.common import pmap, lean_query, guard, fr, to_np, optn, safe_judge
 from harness.c01 import chunks
 
 LEVEL = "proof"
@@ -128,6 +128,7 @@ def lines_for(it, res):
     return L
 
 
+@safe_judge
 def judge(R, it, res, ans):
     kind = it["kind"]
     inp = {k: v for k, v in it.items() if k != "kind"}
